@@ -82,6 +82,8 @@ def gen_function(c: Contract, prop: str, bounded=None) -> FunctionReport:
     rep = FunctionReport(c.key)
     ops.MODE["bounded"] = bounded
     ops.MODE["side"] = []
+    # opt-in per contract: refutation mode leaves native (z3) strings unbounded -- no quantifier ranges over them
+    ops.MODE["free_native_str"] = bool(c.opts.get("refute_free_native_str"))
     try:
         node, fn, kind, sha, fname, owner = load_function(c.key)
         rep.sha, rep.file = sha, fname
@@ -251,6 +253,7 @@ def gen_function(c: Contract, prop: str, bounded=None) -> FunctionReport:
         rep.error = ("unsupported", str(e))
     finally:
         ops.MODE["bounded"] = None
+        ops.MODE["free_native_str"] = False
     return rep
 
 
